@@ -57,6 +57,10 @@ type Probes struct {
 	Calls   int // dynamic probe calls so far
 	FailAt  int // 1-based dynamic call index at which fail() panics (0: never)
 	FailAt2 int // a second failing call (e.g. inside the catch body the first failure led to)
+	// Kind of the injected failure: 0 = panic(error) (what Execute converts), 1 = panic(string),
+	// 2 = a Go runtime error (nil map write). Kinds 1 and 2 are re-raised by Execute by design;
+	// the caller recovers them - later executions must still be unaffected (C10).
+	Kind    int
 	NFired  int
 	Tokens  bool // mark(K) renders a visible token "@@K.n@@" (n-th dynamic call of site K)
 	perSite map[int]int
@@ -93,8 +97,19 @@ func (p *Probes) Hit(id int, w io.Writer) {
 		p.Fired = true
 		p.NFired++
 		p.FiredID = id
-		panic(fmt.Errorf("INJ-%d-%s: simulated function failure", id, p.Tag))
+		p.raise(id)
 	}
+}
+
+func (p *Probes) raise(id int) {
+	switch p.Kind {
+	case 1:
+		panic(fmt.Sprintf("INJ-%d-%s: simulated function failure (string panic)", id, p.Tag))
+	case 2:
+		var m map[string]int
+		m["INJ"] = id // runtime error: assignment to entry in nil map
+	}
+	panic(fmt.Errorf("INJ-%d-%s: simulated function failure", id, p.Tag))
 }
 
 // probeRanger is a custom index-providing Ranger whose Range() is a fault point.
@@ -145,7 +160,7 @@ func (p *Probes) fn(arm bool) jet.Func {
 			p.Fired = true
 			p.NFired++
 			p.FiredID = id
-			panic(fmt.Errorf("INJ-%d-%s: simulated function failure", id, p.Tag))
+			p.raise(id)
 		}
 		if p.Tokens && !arm {
 			if p.perSite == nil {
@@ -166,6 +181,7 @@ type Call struct {
 	FaultProbe  int // k-th dynamic probe call panics with an error
 	FaultProbe2 int // a second failing call (numbered in the run that already has the first fault)
 	FaultWrite  int // k-th Write on the writer fails
+	FaultKind   int // see Probes.Kind
 	Tokens      bool
 }
 
@@ -176,6 +192,9 @@ func (c Call) String() string {
 	}
 	if c.FaultProbe2 > 0 {
 		s += fmt.Sprintf("+probe-call#%d", c.FaultProbe2)
+	}
+	if c.FaultKind > 0 {
+		s += []string{"", "(string-panic)", "(runtime-error)"}[c.FaultKind]
 	}
 	if c.FaultWrite > 0 {
 		s += fmt.Sprintf(" fault=write#%d", c.FaultWrite)
@@ -244,7 +263,7 @@ func NewSet(files map[string]string, opts ...jet.Option) (*jet.Set, *jet.InMemLo
 // Exec performs one call on the given Set.
 func Exec(set *jet.Set, c Call, tag string) Outcome {
 	w := &SimWriter{FailAt: c.FaultWrite}
-	p := &Probes{W: w, FailAt: c.FaultProbe, FailAt2: c.FaultProbe2, Tag: tag, Tokens: c.Tokens}
+	p := &Probes{W: w, FailAt: c.FaultProbe, FailAt2: c.FaultProbe2, Tag: tag, Tokens: c.Tokens, Kind: c.FaultKind}
 	o := Outcome{Probes: p, W: w}
 	var t *jet.Template
 	var err error
